@@ -10,6 +10,7 @@
 
 #include "uscxml/interpreter/LargeMicroStep.h"
 #include "uscxml/interpreter/FastMicroStep.h"
+#include "uscxml/util/URL.h"
 #include "faulty.h"
 #include "transform_ops.h"
 
@@ -166,6 +167,24 @@ static void runActor(const std::string actor);
 static void actorThread(std::string actor) {
 	usim::name_task(actor.c_str());
 	runActor(actor);
+}
+
+// A document with src= starts uSCXML's process-wide URL fetcher thread, which lives until the process ends (its own stop()
+// cannot wake it).  A run is one "process" of the simulation: the harness ends that thread itself so that it is not
+// mistaken for a leaked task of the subject.
+static void stopUrlFetcher() {
+	URLFetcher* f = URLFetcher::_instance;
+	if (!f || !f->_isStarted || !f->_thread) return;
+	{
+		std::lock_guard<std::recursive_mutex> lock(f->_mutex);
+		f->_isStarted = false;
+		f->_condVar.notify_all();
+	}
+	usim::api_enter("join-url-fetcher");
+	f->_thread->join();
+	usim::api_leave();
+	delete f->_thread;
+	f->_thread = NULL;
 }
 
 static void createInterp(const std::string& actor, const js::Value& op) {
@@ -544,6 +563,7 @@ void runPlan(const js::Value& plan) {
 			{ tr::Rec("main", "op>").num(-1).str("destroy").str(""); }
 		}
 	}
+	stopUrlFetcher();
 	usim::end();
 	alarm(0);
 	emitEnd(false);
